@@ -460,6 +460,8 @@ def scenarios(tier: str):
         for first in syms:
             out.append({'kind': 'seq', 'target': target, 'maxlen': 3 if tier == 'quick' else 4, 'first': [first]})
         for seq in (['AT', 'KA'] if tier == 'quick' else ['AT', 'KA', 'LB', 'UAE', 'AB']):
+            if any(c not in syms for c in seq):
+                continue        # the target's message has no length / string field to corrupt
             parts = 4 if tier == 'quick' else 16
             for part in range(parts):
                 out.append({'kind': 'cuts', 'target': target, 'seq': seq, 'two': True, 'part': part,
